@@ -1269,3 +1269,17 @@ package profile
 //@ func cpuProfile arith bv nosafety funcvalues=pure
 //@   loop 4
 //@     step stripped: ite(atiter(4, len(s.Location) > 1 && s.Location[1].Address == id1), len(s.Location) == atiter(4, len(s.Location)) - 1 && s.Location[0] == atiter(4, s.Location[0]), len(s.Location) == atiter(4, len(s.Location)))
+
+// ---- C06: ShowFrom, sample loop — a sample is kept exactly when one of its frames is at a matching location; a kept
+// sample is cut right after its highest (root-most) matching frame: the frames that remain are a prefix of the original
+// list, the last of them matches, and none of the frames cut off matches; a dropped sample is not touched ----
+//@ spec macro func showmatch(m map[uint64]bool, l *Location) bool = has(m, l.ID) && m[l.ID]
+//@ func Profile.ShowFrom nosafety
+//@   loop 2
+//@     step kept: len(s) != len(iter(s)) ==> len(s) == len(iter(s)) + 1 && s[len(s) - 1] == sample && 1 <= len(sample.Location) && len(sample.Location) <= atiter(2, len(sample.Location))
+//@         && showmatch(showFromLocs, sample.Location[len(sample.Location) - 1])
+//@         && forall k int :: len(sample.Location) <= k && k < atiter(2, len(sample.Location)) ==> !showmatch(showFromLocs, atiter(2, sample.Location[k]))
+//@     step dropped: len(s) == len(iter(s)) ==> len(sample.Location) == atiter(2, len(sample.Location)) && forall k int :: 0 <= k && k < len(sample.Location) ==> !showmatch(showFromLocs, sample.Location[k])
+//@   loop 3
+//@     invariant -1 <= i && i < len(sample.Location) && len(sample.Location) == atiter(2, len(sample.Location)) && len(s) == atiter(2, len(s)) && same_elems(sample.Location, atiter(2, sample.Location))
+//@     invariant above: forall k int :: i < k && k < len(sample.Location) ==> !showmatch(showFromLocs, sample.Location[k])
